@@ -31,7 +31,7 @@ import time
 
 import numpy as np
 
-from common import REPO, Driver, tok, untok
+from common import REPO, Driver, grid_tok, tok, untok, untok_exact
 
 PROP = "C05"
 PI = math.pi
@@ -369,7 +369,8 @@ def status_node(row, col, e0, e1, e2, ang0, vr, vc, velev, ew, ns, initial):
 
 
 def sweep_ops(raster, vr, vc, velev, vtarget, ew, ns):
-    """the operation list of the sweep: ('ins', node, row, col, initial) ('del', key) ('qry', key, ang, grad, row, col, elev)"""
+    """the operation list of the sweep: ('ins', node, row, col, initial) ('del', key, row, col)
+    ('qry', key, ang, grad, row, col, elev)"""
     v = V()
     ev, data, vis = events(raster, vr, vc)
     ops = []
@@ -384,7 +385,7 @@ def sweep_ops(raster, vr, vc, velev, vtarget, ew, ns):
         if typ == 1:
             ops.append(("ins", status_node(row, col, e[4], e[5], e[6], e[3], vr, vc, velev, ew, ns, False), row, col, False))
         elif typ == -1:
-            ops.append(("del", float(key)))
+            ops.append(("del", float(key), row, col))
         else:
             ops.append(("qry", float(key), float(e[3]), float(g1), row, col, float(e[5] + vtarget)))
     return ops, ev, data
@@ -463,6 +464,122 @@ def ops_tok(ops):
         else:
             parts.append(f"q:{tok(op[1])}:{tok(op[2])}:{tok(op[3])}")
     return ";".join(parts)
+
+
+# ---------------------------------------------------------------- seam 0: the event geometry, exactly
+def instrumented_sweep(raster, vr, vc, velev, vt, ew, ns, ev, data):
+    """the INTERPRETED source of `_viewshed_cpu_sweep` (`.py_func`) with the three status-structure entry points
+    wrapped: returns the sequence of operations the real sweep performs (initial fill included) and its output"""
+    v = V()
+    rec = []
+    orig = (v._insert_into_tree, v._delete_from_tree, v._max_grad_in_status_struct)
+
+    def w_ins(tv, tn, root, nid, val):
+        rec.append(("ins", np.array(val[:7], dtype=np.float64)))
+        return orig[0](tv, tn, root, nid, val)
+
+    def w_del(tv, tn, root, key):
+        rec.append(("del", float(key)))
+        return orig[1](tv, tn, root, key)
+
+    def w_qry(tv, tn, root, key, ang, grad):
+        rec.append(("qry", float(key), float(ang), float(grad)))
+        return orig[2](tv, tn, root, key, ang, grad)
+    v._insert_into_tree, v._delete_from_tree, v._max_grad_in_status_struct = w_ins, w_del, w_qry
+    try:
+        vis = np.full(raster.shape, -1.0)
+        vis[vr, vc] = 180
+        rcts = np.array(ev[:, :3], dtype=np.int64)
+        aes = np.array(ev[:, 3:], dtype=np.float64)
+        out = v._viewshed_cpu_sweep.py_func(raster, vr, vc, float(velev), float(vt), float(ew), float(ns), rcts, aes,
+                                            data.copy(), vis)
+    finally:
+        v._insert_into_tree, v._delete_from_tree, v._max_grad_in_status_struct = orig
+    return rec, out
+
+
+def events_request(a64, vr, vc, ew, ns):
+    from fractions import Fraction
+    return f"vs_events grid={grid_tok(a64)} vr={vr} vc={vc} ew={tok(Fraction(ew))} ns={tok(Fraction(ns))}"
+
+
+def compare_events(c, ops, ev, data, rep, rec=None):
+    """the exact event data of Model/ViewshedEvents.lean (driver reply `rep`) against the real `_init_event_list` output
+    `ev` (sorted as `_viewshed_cpu` sorts it), `data`, the real keys and positions, the operation list `ops` of the
+    harness's transliteration, and (if given) the operations `rec` recorded from the real interpreted sweep.
+    Returns a list of differences (strings)."""
+    from fractions import Fraction
+    v = V()
+    a, xs, ys, ew, ns, velev, vt = terrain_setup(c)
+    vr, vc = c["vr"], c["vc"]
+    if rep.startswith(("err", "bad")):
+        return ["driver: " + rep[:200]]
+    f = dict(p.split("=", 1) for p in rep.split(" ") if "=" in p)
+    out = []
+    mev = [t.split(":") for t in f.get("ev", "").split(";") if t]
+    if len(mev) != len(ev):
+        return [f"{len(ev)} real events, {len(mev)} model events"]
+    for k, (m, e) in enumerate(zip(mev, ev)):
+        row, col, ty, y2, x2 = (int(t) for t in m[:5])
+        if (row, col, ty) != (int(e[0]), int(e[1]), int(e[2])):
+            out.append(f"sorted position {k}: real event {(int(e[0]), int(e[1]), int(e[2]))}, model {(row, col, ty)}")
+            break
+        ry, rx = v._calc_event_pos(ty, row, col, vr, vc)
+        if (Fraction(float(ry)) * 2, Fraction(float(rx)) * 2) != (y2, x2):
+            out.append(f"event {(row, col, ty)}: real position {(float(ry), float(rx))}, model {(y2 / 2, x2 / 2)}")
+            break
+        want = tuple(untok_exact(t) for t in m[5:8])
+        got = tuple(Fraction(float(x)) for x in e[4:7])
+        if want != got:
+            out.append(f"event {(row, col, ty)}: real elevations {tuple(float(x) for x in e[4:7])}, model "
+                       f"{tuple(float(x) for x in want)} (exact rationals differ)")
+            break
+    # bearings: consecutive real events must have non-decreasing bearings, and equal bearings exactly when the model's
+    # cross product vanishes (same half plane) -- the sequence equality above already pins the order; here the values
+    mdata = [tuple(untok_exact(x) for x in t.split(":")) for t in f.get("data", "").split(";") if t]
+    rdata = [tuple(Fraction(float(data[k][j])) for k in range(3)) for j in range(data.shape[1])]
+    if mdata != rdata:
+        j = next((j for j in range(min(len(mdata), len(rdata))) if mdata[j] != rdata[j]), -1)
+        out.append(f"observer-row buffer `data`, column {j}: real {tuple(float(data[k][j]) for k in range(3)) if j >= 0 else len(rdata)}"
+                   f", model {tuple(float(x) for x in mdata[j]) if j >= 0 else len(mdata)}")
+    from common import parse_grid
+    mkeys = parse_grid(f["keys"], untok_exact)
+    for i in range(a.shape[0]):
+        for j in range(a.shape[1]):
+            rk = float(v._calc_dist_n_grad(i, j, 0.0, vr, vc, 0.0, ew, ns)[0])
+            if Fraction(rk) != mkeys[i][j]:
+                out.append(f"key of cell {(i, j)}: real {rk}, model {float(mkeys[i][j])}")
+                break
+        else:
+            continue
+        break
+    mops = [t for t in f.get("ops", "").split(";") if t]
+    hops = []
+    for op in ops:
+        if op[0] == "ins":
+            hops.append(("*" if op[4] else "+") + f"{op[2]}:{op[3]}")
+        elif op[0] == "del":
+            hops.append(f"-{op[2]}:{op[3]}")
+        else:
+            hops.append(f"?{op[4]}:{op[5]}")
+    if mops != hops:
+        k = next((k for k in range(min(len(mops), len(hops))) if mops[k] != hops[k]), min(len(mops), len(hops)))
+        out.append(f"operation {k} of the sweep: real {hops[k] if k < len(hops) else None}, model {mops[k] if k < len(mops) else None}"
+                   f" ({len(hops)} / {len(mops)} operations)")
+    if f.get("replay") != "1":
+        out.append("the model's operation list violates the active-set discipline")
+    if rec is not None:
+        if len(rec) != len(ops):
+            out.append(f"the real sweep performs {len(rec)} status-structure operations, the transliteration {len(ops)}")
+        else:
+            for k, (x, y) in enumerate(zip(rec, ops)):
+                same = x[0] == y[0] and (np.array_equal(x[1], np.asarray(y[1])[:7]) if x[0] == "ins" else
+                                          x[1] == y[1] if x[0] == "del" else x[1:4] == tuple(y[1:4]))
+                if not same:
+                    out.append(f"operation {k}: the real sweep does {x[0]} {np.asarray(x[1]).tolist() if x[0] == 'ins' else x[1:]}, "
+                               f"the transliteration {y[0]} {np.asarray(y[1]).tolist() if y[0] == 'ins' else y[1:4]}")
+                    break
+    return out
 
 
 # ---------------------------------------------------------------- terrains
@@ -1269,6 +1386,7 @@ def seam123(r, n_terr, maxs, tree_level_every):
     """terrains: seam 3 (public) vs seam 2 (real sweep, real tree ops, L1 list model, L2 tree model), and
     seam 1 on the sweep-derived operation sequence of some of them"""
     requests, meta = [], []
+    e_requests, e_meta = [], []
     t_requests, t_expect = [], []
     nrot = 0
     for s in range(n_terr):
@@ -1305,11 +1423,25 @@ def seam123(r, n_terr, maxs, tree_level_every):
         r.tag("cells:invisible", len(ref) - sum(ref.values()))
         requests.append("vs_sweep ops=" + ops_tok(ops))
         meta.append((c, "".join("1" if ref[(op[4], op[5])] else "0" for op in ops if op[0] == "qry")))
+        rec = None
+        if s % tree_level_every == 0 and len(ops) <= 700:
+            rec, out_py = instrumented_sweep(a64, c["vr"], c["vc"], velev, vt, ew, ns, ev, data)
+            if not np.array_equal(out_py, pub):
+                r.disagree("seam0-interpreted-sweep", c, "viewshed() output", "the interpreted source of the sweep differs")
+            r.tag("seam0:real-sweep-operations-recorded", len(rec))
+        e_requests.append(events_request(a64, c["vr"], c["vc"], ew, ns))
+        e_meta.append((c, ops, ev, data, rec))
         if s % tree_level_every == 0 and len(ops) <= 700:
             tops = [(op[0], op[1]) if op[0] != "qry" else ("qry", op[1], op[2], op[3]) for op in ops]
             nrot += run_tree_sequence(r, tops, dict(stream="tree-sweep", terrain=c), "tree-sweep", t_requests, t_expect,
                                       size=a.shape[1] - c["vc"] + a.size + 10)
             r.tag("seam1:sweep-derived-sequences")
+    for (c, ops, ev, data, rec), rep in zip(e_meta, Driver().ask(e_requests)):
+        diffs = compare_events(c, ops, ev, data, rep, rec)
+        for d in diffs[:3]:
+            r.disagree("seam0-event-geometry", dict(stream="terrain", terrain=c), "real " + d, "Model/ViewshedEvents.lean (exact)")
+        r.tag("seam0:event-lists-compared-exactly")
+        r.tag("seam0:events", len(ev))
     replies = Driver().ask(requests)
     for (c, want), rep in zip(meta, replies):
         f = dict(p.split("=", 1) for p in rep.split(" ") if "=" in p)
